@@ -22,6 +22,18 @@ import numpy as np
 from lib import core
 from lib.core import Result, f2b
 
+READY = True
+MANIFEST = dict(
+    text='Proof (Lean 4): for every history of evaluations the iteration file holds the best evaluated point with finite gradient '
+    '(invariant by induction, C15.file_is_best / every_prefix_is_best / never_below_start); re-reading a rendered line returns name and value '
+    '(C15.parse_render, names may contain "="); restart overrides exactly the saved names; the write protocol tmp-then-rename is safe at every crash point '
+    '(C15.crash_safe, all k, all chunk lists). Tie: correspondence on real BIOGEME objects (file read after every call, real restart, recorded write protocol '
+    'compared with the model protocol, every crash point injected for real).',
+    design='DESIGN.md §5 C15',
+    technique='Lean 4 theorems over an executable state-machine model + differential correspondence with real BIOGEME runs and crash injection',
+    note='Partial: CPython float repr/parse round trip and OS rename atomicity are trusted; f and the finite-gradient flag come from the engine.',
+)
+
 TRUSTED = [
     'CPython str(float)/float() round trip (values are opaque tokens in the model)',
     'the engine computes f and the gradient; the model receives the real f and the finite-gradient flag',
